@@ -15,6 +15,7 @@ type CacheEr interface {
 // name2Value
 type name2Value struct {
 	validName  string
+	groupName  string // 所属对象的标识(如: map 切片中的下标前缀), 与 objName 一起区分不同对象里的同名分组
 	objName    string
 	fieldName  string
 	cusMsg     string
@@ -58,10 +59,12 @@ func (v *validCommon) initValid2FieldsMap(data *name2Value) {
 	if v.valid2FieldsMap == nil {
 		v.valid2FieldsMap = make(map[string][]*name2Value, 5)
 	}
-	if _, ok := v.valid2FieldsMap[data.validName]; !ok {
-		v.valid2FieldsMap[data.validName] = make([]*name2Value, 0, 2)
+	// 分组按 "所属对象 + 验证规则" 区分, 不同对象(切片元素/嵌套对象/map 元素)里的同名分组互不影响
+	groupKey := data.objName + "\x00" + data.groupName + "\x00" + data.validName
+	if _, ok := v.valid2FieldsMap[groupKey]; !ok {
+		v.valid2FieldsMap[groupKey] = make([]*name2Value, 0, 2)
 	}
-	v.valid2FieldsMap[data.validName] = append(v.valid2FieldsMap[data.validName], data)
+	v.valid2FieldsMap[groupKey] = append(v.valid2FieldsMap[groupKey], data)
 }
 
 // either 判断两者不能都为空
@@ -141,8 +144,11 @@ func (v *validCommon) valid(errBuf *strings.Builder) {
 		return
 	}
 
-	for validName, fieldInfos := range v.valid2FieldsMap {
-		validKey, _, _ := ParseValidNameKV(validName)
+	for _, fieldInfos := range v.valid2FieldsMap {
+		if len(fieldInfos) == 0 {
+			continue
+		}
+		validKey, _, _ := ParseValidNameKV(fieldInfos[0].validName)
 		switch validKey {
 		case Either:
 			v.either(errBuf, fieldInfos)
